@@ -32,6 +32,18 @@ pub fn ct_add2(x: u32) -> u32 {
     black_box(x) + 3
 }
 #[inline(never)]
+pub fn ct_flag(x: u32) -> bool {
+    black_box(x) > 5
+}
+#[inline(never)]
+fn ct_raw_fake(x: u32) -> u32 {
+    black_box(x) + 600
+}
+#[inline(never)]
+pub fn ct_other(x: u32) -> u32 {
+    black_box(x) + 11
+}
+#[inline(never)]
 pub fn ct_unit(x: u32) {
     UNIT_SINK.fetch_add(black_box(x) as usize, Ordering::SeqCst);
 }
@@ -98,6 +110,16 @@ pub struct CLifetime {
     /// a set-up helper called twice), followed by more calls
     #[serde(default)]
     pub second: Option<CSecond>,
+    /// installations made through the same injector BEFORE the counted one: "bool" (a forced
+    /// boolean on another function) | "raw" (a plain fake on another function)
+    #[serde(default)]
+    pub prelude: Vec<String>,
+    /// a refused installation attempted (and caught) right AFTER the counted one:
+    /// "" | "uncounted_mismatch" (will_execute of a fake without `times`, wrong signature) |
+    /// "raw_mismatch" (will_execute_raw).  (A refused fake WITH `times` leaves its own expectation
+    /// pending on the unchanged tree, which no property speaks about: not used here.)
+    #[serde(default)]
+    pub refused_after: String,
 }
 
 #[derive(Serialize, Deserialize, Clone, Debug, PartialEq)]
@@ -167,7 +189,18 @@ pub fn generate(profile: &str, seed: u64, index: u64) -> CountScenario {
             None
         };
         classes.push(format!("N{}-m{}-rej{}-{}", n, k.min(9), nm, if exit_panic { "unwind" } else { "drop" }));
-        lifetimes.push(CLifetime { n, calls, exit_panic, second });
+        let mut prelude: Vec<String> = Vec::new();
+        if rng.chance(1, 4) {
+            for _ in 0..1 + rng.below(2) {
+                prelude.push((*rng.pick(&["bool", "raw"])).into());
+            }
+            classes.push(format!("prelude{}", prelude.len()));
+        }
+        let refused_after: String = if rng.chance(1, 5) { (*rng.pick(&["uncounted_mismatch", "uncounted_mismatch", "raw_mismatch"])).into() } else { String::new() };
+        if !refused_after.is_empty() {
+            classes.push(format!("refused-after-{refused_after}"));
+        }
+        lifetimes.push(CLifetime { n, calls, exit_panic, second, prelude, refused_after });
     }
     classes.sort();
     classes.dedup();
@@ -221,6 +254,8 @@ pub fn execute(sc: &CountScenario, sh: &Shared) -> Value {
     let count_prop7: &[&str] = if sc.zero_counter { &["C06"] } else { &["C07"] };
     let mut second_installs = 0u64;
     let mut exit_not_judged = 0u64;
+    let mut preludes = 0u64;
+    let mut refusals = 0u64;
     for (li, lt) in sc.lifetimes.iter().enumerate() {
         sh.note(PH_OTHER, li as u64, 0, 0);
         let nstat = match sc.site.as_str() {
@@ -231,6 +266,16 @@ pub fn execute(sc: &CountScenario, sh: &Shared) -> Value {
             _ => &N_D,
         };
         let mut inj = InjectorPP::new();
+        for (pi, p) in lt.prelude.iter().enumerate() {
+            let r = catch_unwind(AssertUnwindSafe(|| match p.as_str() {
+                "bool" => inj.when_called(injectorpp::func!(fn (ct_flag)(u32) -> bool)).will_return_boolean(pi % 2 == 0),
+                _ => inj.when_called(injectorpp::func!(fn (ct_other)(u32) -> u32)).will_execute_raw(injectorpp::func!(fn (ct_raw_fake)(u32) -> u32)),
+            }));
+            if let Err(p) = r {
+                v("install-of-counted-fake-panicked", &["C06"], format!("lifetime {li}: an uncounted installation before the counted one panicked: {}", panic_msg(&p)));
+            }
+            preludes += 1;
+        }
         // stage 0: the installation of this lifetime; stage 1 (optional): the same expression
         // evaluated and installed again
         let mut stages: Vec<(usize, &Vec<u32>, bool)> = vec![(lt.n, &lt.calls, false)];
@@ -272,6 +317,23 @@ pub fn execute(sc: &CountScenario, sh: &Shared) -> Value {
                 v("install-of-counted-fake-panicked", &["C06"], format!("lifetime {li} installation {si}: {}", panic_msg(&p)));
                 broke = true;
                 break;
+            }
+            if si == 0 && !lt.refused_after.is_empty() {
+                // a refused installation (caught by the test) must leave the pending expectation alone
+                let r = catch_unwind(AssertUnwindSafe(|| match lt.refused_after.as_str() {
+                    "uncounted_mismatch" => inj.when_called(injectorpp::func!(fn (ct_other)(u32) -> u32)).will_execute(injectorpp::fake!(func_type: fn(x: u64) -> u64, returns: x)),
+                    _ => inj.when_called(injectorpp::func!(fn (ct_other)(u32) -> u32)).will_execute_raw(injectorpp::closure!(|| 1u32, fn() -> u32)),
+                }));
+                refusals += 1;
+                match r {
+                    Ok(()) => v("structurally-different-signature-accepted", &["C09"], format!("lifetime {li}: the mismatched installation ({}) was accepted", lt.refused_after)),
+                    Err(p) => {
+                        let msg = panic_msg(&p);
+                        if !msg.contains("Signature mismatch") {
+                            v("refusal-with-wrong-message", &["C09"], format!("lifetime {li}: refused installation ({}) panicked with {msg:?}", lt.refused_after));
+                        }
+                    }
+                }
             }
             m = 0;
             for (ci, arg) in calls.iter().enumerate() {
@@ -417,8 +479,8 @@ pub fn execute(sc: &CountScenario, sh: &Shared) -> Value {
         }
         // originals are back
         sh.note(PH_CALL_AFTER, li as u64, 0, lt.exit_panic as u64);
-        if ct_add(41) != 42 || ct_add2(41) != 44 {
-            v("call-after-scope-exit-not-original", &["C02"], format!("lifetime {li}: ct_add(41) != 42 or ct_add2(41) != 44 after scope exit"));
+        if ct_add(41) != 42 || ct_add2(41) != 44 || ct_other(1) != 12 || ct_flag(9) != true || ct_flag(1) != false {
+            v("call-after-scope-exit-not-original", &["C02"], format!("lifetime {li}: a function is not original after scope exit"));
         }
         if !viol.borrow().is_empty() {
             break;
@@ -448,6 +510,12 @@ pub fn execute(sc: &CountScenario, sh: &Shared) -> Value {
     }
     if second_installs > 0 {
         probes.insert("same_site_installed_twice_in_one_lifetime".into(), json!(second_installs));
+    }
+    if preludes > 0 {
+        probes.insert("uncounted_installs_before_the_counted_one".into(), json!(preludes));
+    }
+    if refusals > 0 {
+        faults.insert("refused_install_with_expectation_pending".into(), json!(refusals));
     }
     if exit_not_judged > 0 {
         probes.insert("scope_exit_verdict_not_judged_two_installations_share_a_counter".into(), json!(exit_not_judged));
